@@ -221,8 +221,14 @@ macro_rules! impl_derivatives {
 
             #[inline]
             fn atan2(&self, other: Self) -> Self {
-                let mut res = (self / other.clone()).atan();
-                res.re = self.re.atan2(other.re);
+                let re = self.re.atan2(other.re.clone());
+                // atan2(y, x) = +-pi/2 - atan(x / y): same derivatives, finite on and near the axis x = 0
+                let mut res = if other.re().abs() < self.re().abs() {
+                    -(other / self).atan()
+                } else {
+                    (self / other).atan()
+                };
+                res.re = re;
                 res
             }
 
